@@ -4,19 +4,19 @@ props = [json.loads(l) for l in open("/verif/properties.jsonl")]
 E1 = "symbolic execution of the real Python code with an SMT solver (CrossHair/z3), bounded box, partitioned; counterexamples replayed on the plain interpreter"
 ENUM = "solver-enumerated selector space (CrossHair/z3 path enumeration; 'Confirmed over all paths' = every case of the box was run), each case executed concretely on the real code and compared with an independent oracle; counterexamples replayed on the plain interpreter"
 CLAIMED = {
-    "C04": dict(text="all histories of 3 connection operations (+completion) x {call, setattr, connect, replace, disconnect} x two ports (bus port, bundle port) x 8 / 6 kinds of connectable on an Instance (thorough: also InstanceArray); the exported package must equal the reference semantics of the FINAL mapping only",
+    "C04": dict(text="all histories of 3 connection operations (+completion) x {call, setattr, connect, replace, disconnect} x three ports (bus port, two bundle ports of one type) x 8 / 6 kinds of connectable, plus a further instance taking a reference to the edited port, on an Instance (thorough: also InstanceArray); the exported package must equal the reference semantics of the FINAL mapping only",
                 note="all inputs are selectors: the solver's role is exhaustive enumeration; oracle vlib/dsl.py", tech=ENUM),
-    "C07": dict(text="all histories of 2 (quick) / 3 calls x {elaborate, to_proto, netlist} x any non-empty subset of a 4-module DAG (shared sub-modules, bundle ports, anonymous bundle, port reference), in either order, alone or as a list; bytes equal those of a twin without history; second export identical; late parents see bundle-level ports; elaborated modules refuse additions",
+    "C07": dict(text="all histories of 2 (quick) / 3 calls x {elaborate, to_proto, netlist} x any non-empty subset of a 4-module DAG (shared sub-modules, bundle ports, anonymous bundle, port references incl. a pair of leaves joined by a reference only, no-connected bundle port), in either order, alone or as a list; bytes equal those of a twin without history; second export identical; late parents see bundle-level ports; elaborated modules refuse additions",
                 note="separate processes are approximated by resetting hdl21's process-global caches and building fresh objects", tech=ENUM),
-    "C08": dict(text="a raising user pass at every position of the default pass list x every module of a shared DAG, every C02 fault class detected inside checking and rewriting passes, and a generator body raising 1..3 times; continuations: retry unchanged (same error), unrelated design, design sharing sub-modules, repair and retry, parent's instance of the offending module replaced by a valid module and re-exported (must equal a twin with the same edit history); no later call returns a package a fresh twin would not give",
+    "C08": dict(text="a raising user pass at every position of the default pass list x every module of a shared DAG, every C02 fault class detected inside checking and rewriting passes (offending module held as an instance or an instance array), and a generator body raising 1..3 times (alone, after a circular-generator error, or retried inside a catching body); continuations: retry unchanged (same error), unrelated design, design sharing sub-modules, repair and retry, parent's instance of the offending module replaced by a valid module and re-exported (must equal a twin with the same edit history); no later call returns a package a fresh twin would not give",
                 note="selectors only; 'same error' compares exception type and message with file paths / addresses removed", tech=ENUM),
-    "C10": dict(text="bundle trees of depth 3 with fan-out, 7 leaf kinds per level, flips at every level by flag and by flipped(), role of the instance, leaf widths, port vs internal: exact set of (name, width, direction) of the flattened ports against an independent parity / role oracle, and leaf-by-leaf pairing of a parent's bundle with the child's bundle port",
+    "C10": dict(text="bundle trees of depth 3 with fan-out, 7 leaf kinds per level, flips at every level by flag and by flipped(), role of the instance, leaf widths, port vs internal: exact set of (name, width, direction) of the flattened ports against an independent parity / role oracle, and leaf-by-leaf pairing of a parent's bundle - or of an anonymous bundle made of a signal and differently named whole bundle instances - with the child's bundle port",
                 note="flags, kinds and small widths: solver-enumerated", tech=ENUM),
-    "C12": dict(text="the iteration order of every set created by the connectable classes is a SYMBOLIC choice vector (vlib/nondet.py) on 8 designs exercising each set-iterating rewriting site; serialized package and spice / spectre / verilog text must equal those of the canonical order; a counterexample is reported only if real sub-processes under different PYTHONHASHSEED values differ byte-wise",
+    "C12": dict(text="the iteration order of every set created by the connectable classes is a SYMBOLIC choice vector (vlib/nondet.py) on 9 designs exercising each set-iterating rewriting site; serialized package and spice / spectre / verilog text must equal those of the canonical order; a counterexample is reported only if real sub-processes under different PYTHONHASHSEED values differ byte-wise; three concrete multi-process seeds (the 9 designs, the 7 example programs, a generator design with set-valued parameters) cover address- / str-hash-ordered behaviour the set model cannot express",
                 note="any order of a small id-/str-hashed set is assumed reachable for some process; dict order is insertion order by the language", tech=E1),
     "C13": dict(text="value dispatch for 11 ideal primitives (documented VLSIR names / pulse renaming), physical Mos, external module with every accepted value type; Prefixed(coef x 10^exp, prefix) incl. mantissas at the int64 boundary and 1e30; Scalar conversion of ints, floats, Decimals and every string of length <= 3 over a 13-character alphabet",
                 note="values realise at pydantic / protobuf / decimal: enumeration inside the stated boxes, no generalisation", tech=ENUM),
-    "C15": dict(text="selection by type / family / threshold over the whole enum product for 4 PDKs; every entry of every Sky130 / GF180 device table by model name with sizes / multiplier given or defaulted (valid, netlists, compile twice = once, equal params -> same call); a shared 3-level hierarchy compiled directly / by default / by name / by module; logic-cell libraries (1/16 quick, all 3148 thorough)",
+    "C15": dict(text="selection by type / family / threshold over the whole enum product for 4 PDKs; every entry of every Sky130 / GF180 device table by model name with sizes / multiplier given or defaulted (valid, netlists, compile twice = once, equal params -> same call); a shared 3-level hierarchy compiled directly / by default / by name / by module / by name or module while another PDK is the default (each equal to the PDK's own compile()); the same model compiled again with another multiplier or width in one process; logic-cell libraries (1/16 quick, all 3148 thorough)",
                 note="finite tables: exhaustive enumeration; 3 known findings (devices with more terminals than the generic primitive)", tech=ENUM),
     "C16": dict(text="hierarchies of depth 2-4 with shared leaves, primitive and external-module leaves, bus and scalar nets, designer signal / instance names drawn from candidate sets containing the documented ':'-joined path names: only leaf instances, one per leaf, ports unchanged, leaf-level partition of flatten(m) equals that of m; rejection only for a real name clash; crashes are violations",
                 note="names come from candidate sets (selectors), not from symbolic strings", tech=ENUM),
@@ -26,17 +26,17 @@ CLAIMED = {
                 note="trusted: ref_valid (transcription of the property's list), CrossHair/z3; name clashes are checked on to_proto/netlist only (the export name space)", tech=E1),
     "C05": dict(text="one harness per naming site (named / unnamed / shared no-connect, implicit port-reference signal, flattened bundle member, array element, pair member, underscore retry) with the DESIGNER'S NAME A SYMBOLIC STRING (any characters, length <= 3 quick / 8 thorough; the designer's object a signal, a port or an instance) and both declaration orders; identity-level post-condition on the elaborated objects; exported partition checked in the concrete replay",
                 note="protobuf rejects proxy strings: package-level observation only in replay; trusted CrossHair string theory (z3 seq)", tech=E1),
-    "C09": dict(text="injectivity of generated names through the public ExternalModuleCall.name with SYMBOLIC STRING parameter values (printable ASCII, repr() stubbed exactly for that alphabet) plus solver-enumerated adversarial words (quotes, backslash, 'None', newline, non-ASCII); memoisation across call forms; names independent of 120 call orders of Series/MosStack/handing-on generators",
+    "C09": dict(text="injectivity of generated names through the public ExternalModuleCall.name with SYMBOLIC STRING parameter values (printable ASCII, repr() stubbed exactly for that alphabet) plus solver-enumerated adversarial words (quotes, backslash, 'None', newline, non-ASCII); the hashed naming path over confusable optional values (None, 0, 0.0, '', False; direct or nested); memoisation across call forms; names independent of 120 call orders of Series/MosStack/handing-on generators",
                 note="repr() stub is exact only on the admitted alphabet (pre-condition); md5 collision-freeness assumed past the 128-character switch", tech=E1),
-    "C18": dict(text="all 3-operation edit histories (setattr / add(name=) / add) over a 2-3 letter alphabet and 7 value kinds on a Module, and the analogue on a Bundle: coherence invariant after every prefix and exported package = current objects; documented rejections",
+    "C18": dict(text="all 3-operation edit histories (setattr / add(name=) / add) over a 2-3 letter alphabet and 7 value kinds on a Module, and the analogue on a Bundle: coherence invariant after every prefix and exported package = current objects; documented rejections; three class-body bindings (values anonymous or pre-named, one object under two names) equal to the procedural assignments",
                 note="all inputs are selectors: the solver's role is exhaustive enumeration (each path runs concretely)", tech=E1),
-    "C19": dict(text="Series.func executed with SYMBOLIC n through the generator body, instance array and slice resolution for 5 unit cells x every ordered series-port pair, compared with the documented chain topology written in the design DSL; MosStack; Wrapper incl. bundle-valued ports and pre-elaborated units; C06/C11 riders",
+    "C19": dict(text="Series.func executed with SYMBOLIC n through the generator body, instance array and slice resolution for 6 unit cells (incl. ports named like the generator's internal objects; module units elaborated beforehand) x every ordered series-port pair, compared with the documented chain topology written in the design DSL; MosStack; Wrapper incl. bundle-valued ports and pre-elaborated units; the generated interface checked before elaboration; C06/C11 riders",
                 note="n bounded (<=3 quick, <=6 thorough); duck-typed params keep n symbolic (replay uses the real SeriesParams)", tech=E1),
     "C01": dict(text="7 design templates (slices/concats, port references + no-connects, bundles, arrays, pairs, hierarchy, construction styles) with symbolic widths, indices, sizes and connection selectors; exported package read as the VLSIR netlisters read it AND the emitted spice text, both compared with an independent union-find reference semantics on the leaf-level net partition, leaf devices and parameters",
                 note="trusted: reference semantics vlib/dsl.py (written from the documentation), package/spice readers vlib/pkgread.py, CrossHair/z3 + prelude", tech=E1),
     "C06": dict(text="closure validator (unique names, definition before use, ports name signals, each target port connected exactly once, in-range width-equal targets) + from_proto + spice and spectre netlisters as a post-condition on every explored path of the design templates; invented-name and namesake-external-module families (solver-enumerated); repository examples and built-in generators as concrete seeds",
                 note="trusted: vlib/pkgread.check_package; concrete seeds are not solver-decided; 1 known finding (same-named external modules of different domains are refused by the vlsirtools netlisters)", tech=E1),
-    "C11": dict(text="to_proto(from_proto(P)) == P as a post-condition on every design-template path, plus parameter space (8 device kinds x mantissa x exponent x 21 prefixes, solver-enumerated), slice/concat index conventions (symbolic width and bounds) and external-module headers (14 spice types x directions x widths x order)",
+    "C11": dict(text="to_proto(from_proto(P)) == P as a post-condition on every design-template path, plus parameter space (10 device kinds incl. controlled sources, pulse sources with unset / literal fields, enums x mantissa x exponent x 21 prefixes, solver-enumerated), slice/concat index conventions incl. strided and reversed parts (symbolic width and bounds), every nested slice / concatenation path of C03 and external-module headers (14 spice types x directions x widths x order)",
                 note="values realise at the pydantic/protobuf boundary: bounded-exhaustive enumeration by the solver, no generalisation beyond the box", tech=E1),
     "C03": dict(text="index/slice normalisation kernels decided over UNBOUNDED integers (w, a, b) for each constant step in +-1..+-6; nested slice/concat/reference resolution through the real elaborator+exporter compared with Python list slicing inside a bounded box (W<=3); every in-range slice selecting a bit (any step) must be accepted",
                 note="trusted: CrossHair 0.0.110 + prelude work-arounds (pydantic validation stub, format stub), z3, closed-form CPython slice oracle, pkg_nets reader", tech=E1),
